@@ -125,18 +125,26 @@ ExtrapDefined(kind, t, DT) ==
     [] kind = "linear_backward" -> t # DT
     [] OTHER -> TRUE
 
-Extrap(kind, sample, t, prev, next, DT) ==
+\* optional keyword arguments of the shipped kernels (read from their signatures):
+\*   extrap_linear_forward / extrap_linear_backward: adjust = f, "function to apply to the previous
+\*   [next] state before extrapolating" - the bracket value the line is anchored on is f(D), and
+\*   the slope is taken from f(D) as well.  (time_constant / rate_constant: the symbolic kernels.)
+Adjusts == {"id", "plus12", "double", "neg"}
+Adj(f, v) == CASE f = "id" -> v [] f = "plus12" -> v + 12 [] f = "double" -> 2 * v [] f = "neg" -> 0 - v
+TakesAdjust(kind) == kind \in {"linear_forward", "linear_backward"}
+
+Extrap(kind, sample, t, prev, next, DT, adj) ==
   CASE kind = "previous" -> <<sample, next>>
     [] kind = "next" -> <<prev, sample>>
     [] kind = "neighbors" -> <<sample, sample>>
     [] kind = "nearest" -> IF 2 * t > DT THEN <<prev, sample>> ELSE <<sample, next>>
-    [] kind = "linear_forward" -> <<prev, prev + ((sample - prev) * DT) \div t>>
-    [] kind = "linear_backward" -> <<next - ((next - sample) * DT) \div (DT - t), next>>
+    [] kind = "linear_forward" -> LET p == Adj(adj, prev) IN <<p, p + ((sample - p) * DT) \div t>>
+    [] kind = "linear_backward" -> LET n == Adj(adj, next) IN <<n - ((n - sample) * DT) \div (DT - t), n>>
 
 \* every division above is exact for these arguments
-ExactArgs(kind, sample, t, prev, next, DT) ==
-  CASE kind = "linear_forward" -> ((sample - prev) * DT) % t = 0
-    [] kind = "linear_backward" -> ((next - sample) * DT) % (DT - t) = 0
+ExactArgs(kind, sample, t, prev, next, DT, adj) ==
+  CASE kind = "linear_forward" -> ((sample - Adj(adj, prev)) * DT) % t = 0
+    [] kind = "linear_backward" -> ((Adj(adj, next) - sample) * DT) % (DT - t) = 0
     [] OTHER -> TRUE
 ExactInterp(prev, next, t, DT) == ((next - prev) * t) % DT = 0
 
